@@ -128,8 +128,9 @@ class ShellProgram:
         self.build_exc = None
         self.compile_err = ''
         self.exe: Dict[str, str] = {}
-        # build the same assignment spelled differently first (shared PortSelect objects, shared
-        # Builder): a history that must not leak into this build
+        # build other shells for the same encapsulee first - the same assignment spelled
+        # differently and contrasting assignments - from shared PortSelect objects and one
+        # shared Builder: a history that must not leak into this build
         self.warm = True
 
     def generate(self) -> bool:
@@ -138,8 +139,9 @@ class ShellProgram:
                                                  self.info['provides'], self.info['requires'],
                                                  self.info['injected'])
         self.mapping = mapping or {}
-        warmups = shellbuild.equivalent_spellings(self.enc, self.info['provides'],
-                                                  self.info['requires']) if self.warm else None
+        warmups = (shellbuild.contrasting_configs(self.enc) +
+                   shellbuild.equivalent_spellings(self.enc, self.info['provides'],
+                                                   self.info['requires'])) if self.warm else None
         res = shellbuild.outcome(self.enc, M.to_json(self.gen.model), warmups=warmups)
         if 'files' not in res:
             self.build_exc = res['exc']
